@@ -598,6 +598,13 @@ class C18(Check):
                 op["_told_absent"] = bool(absent_errno
                                           and sc["kind"] == "sharded"
                                           and len(plan) > 1)
+                if op.get("must_fail") and st == "ok":
+                    res.violate(
+                        "C18/refusal-lost-under-fault",
+                        f"{where}: the name exists and overwrite=False, yet "
+                        "with this fault the store returned normally",
+                        key=f"C18/refusal-lost/{sc['kind']}/{op['label']}",
+                        narrow=narrow)
                 # ---------- retries through the same handle ----------------
                 retried = None
                 if st == "exc" and not crashed and op["is_store"]:
